@@ -28,4 +28,12 @@ func TestWellFormedOps(t *testing.T) {
 			}
 		}
 	}
+	// shrink: the leaf keeps 0..3 payload bytes and every size still adds up
+	for keep := 0; keep < 4; keep++ {
+		out := Apply(moov, []Mut{{Op: "shrink", Box: 2, Off: keep}})
+		tree, err := boxwalk.WalkAll(out)
+		if err != nil || len(tree) != 1 || tree[0].Size != len(out) || len(out) != len(moov)-4+keep {
+			t.Fatalf("shrink keep %d: %v: %x", keep, err, out)
+		}
+	}
 }
